@@ -25,7 +25,7 @@ WellFormed(A) == /\ A.k \in Nat /\ A.p \in {0, 1} /\ Len(A.val) = Size(A)
                  /\ (DimI(A) = 1 => A.k = 0)
 
 Token(dims, k, p) == [dims |-> dims, k |-> k, p |-> p,
-                      val |-> [m \in 1..ProdSeq(Radix(dims, k)) |-> m]]
+                      val |-> Eager([m \in 1..ProdSeq(Radix(dims, k)) |-> m])]
 
 (* ---- the group action: (g.A)(y)_J = det(g)^p * prod_a s[J_a] * A(g^-1 y)_{p[J]} ---- *)
 Act(g, A) ==
@@ -38,20 +38,20 @@ Act(g, A) ==
       sout == Strides(rout)
       dp   == IF A.p = 1 THEN Det(g) ELSE 1
   IN [A EXCEPT !.dims = od,
-        !.val = [m \in 1..ProdSeq(rout) |->
+        !.val = Eager([m \in 1..ProdSeq(rout) |->
            LET dg  == Unlin(m - 1, rout, sout)
                x   == MovePix(gi, od, SubSeq(dg, 1, D))
                J   == SubSeq(dg, D + 1, D + A.k)
-           IN dp * SignIdx(g, J) * A.val[Lin(x \o SrcIdx(g, J), sin) + 1]]]
+           IN dp * SignIdx(g, J) * A.val[Lin(x \o SrcIdx(g, J), sin) + 1]])]
 
 (* per-axis flags travel with their axes *)
 ActFlags(g, flags) == OutDims(g, flags)
 
 (* ---- linear structure ---- *)
 SameType(A, C) == A.dims = C.dims /\ A.k = C.k /\ A.p = C.p
-Add(A, C)   == [A EXCEPT !.val = [m \in 1..Len(A.val) |-> A.val[m] + C.val[m]]]
-Sub(A, C)   == [A EXCEPT !.val = [m \in 1..Len(A.val) |-> A.val[m] - C.val[m]]]
-Scale(c, A) == [A EXCEPT !.val = [m \in 1..Len(A.val) |-> c * A.val[m]]]
+Add(A, C)   == [A EXCEPT !.val = Eager([m \in 1..Len(A.val) |-> A.val[m] + C.val[m]])]
+Sub(A, C)   == [A EXCEPT !.val = Eager([m \in 1..Len(A.val) |-> A.val[m] - C.val[m]])]
+Scale(c, A) == [A EXCEPT !.val = Eager([m \in 1..Len(A.val) |-> c * A.val[m]])]
 
 (* ---- pixel-wise tensor product: indices of A first, then those of C; parity adds mod 2 ---- *)
 TProd(A, C) ==
@@ -61,11 +61,11 @@ TProd(A, C) ==
       sa == Strides(Radix(A.dims, A.k))
       sc == Strides(Radix(C.dims, C.k))
   IN [dims |-> A.dims, k |-> A.k + C.k, p |-> (A.p + C.p) % 2,
-      val |-> [m \in 1..ProdSeq(ro) |->
+      val |-> Eager([m \in 1..ProdSeq(ro) |->
          LET dg == Unlin(m - 1, ro, so)
              x  == SubSeq(dg, 1, D)
          IN A.val[Lin(x \o SubSeq(dg, D + 1, D + A.k), sa) + 1]
-            * C.val[Lin(x \o SubSeq(dg, D + A.k + 1, D + A.k + C.k), sc) + 1]]]
+            * C.val[Lin(x \o SubSeq(dg, D + A.k + 1, D + A.k + C.k), sc) + 1]])]
 
 (* ---- transposition of tensor indices: result index a is the old index perm[a] (1-based),
         i.e. numpy.transpose(data, spatial ++ perm) ---- *)
@@ -73,11 +73,11 @@ Transpose(A, perm) ==
   LET D  == DimI(A)
       r  == Radix(A.dims, A.k)
       s  == Strides(r)
-  IN [A EXCEPT !.val = [m \in 1..Len(A.val) |->
+  IN [A EXCEPT !.val = Eager([m \in 1..Len(A.val) |->
          LET dg == Unlin(m - 1, r, s)
              src == [j \in 1..(D + A.k) |-> IF j <= D THEN dg[j]
                        ELSE dg[D + (CHOOSE a \in 1..A.k : perm[a] = j - D)]]
-         IN A.val[Lin(src, s) + 1]]]
+         IN A.val[Lin(src, s) + 1]])]
 
 (* ---- Kronecker contraction of tensor indices i < j (1-based positions) ---- *)
 Contract(A, i, j) ==
@@ -91,11 +91,11 @@ Contract(A, i, j) ==
       Ins(J, t) == [a \in 1..A.k |-> IF a = lo \/ a = hi THEN t
                                      ELSE IF a < lo THEN J[a] ELSE IF a < hi THEN J[a - 1] ELSE J[a - 2]]
   IN [dims |-> A.dims, k |-> A.k - 2, p |-> A.p,
-      val |-> [m \in 1..ProdSeq(ro) |->
+      val |-> Eager([m \in 1..ProdSeq(ro) |->
          LET dg == Unlin(m - 1, ro, so)
              x  == SubSeq(dg, 1, D)
              J  == SubSeq(dg, D + 1, D + A.k - 2)
-         IN SumSeq([t \in 1..D |-> A.val[Lin(x \o Ins(J, t - 1), sa) + 1]])]]
+         IN SumSeq([t \in 1..D |-> A.val[Lin(x \o Ins(J, t - 1), sa) + 1]])])]
 
 (* multiple contraction: pairs is a sequence of <<i, j>> over the ORIGINAL index positions.
    Defined by contracting the pair with the largest indices first so that positions stay valid. *)
@@ -128,7 +128,7 @@ LeviCivita(A, idxs) ==
       sa   == Strides(Radix(A.dims, A.k))
       AllI == [1..(D - 1) -> 0..(D - 1)]
   IN [dims |-> A.dims, k |-> ko, p |-> (A.p + 1) % 2,
-      val |-> [m \in 1..ProdSeq(ro) |->
+      val |-> Eager([m \in 1..ProdSeq(ro) |->
          LET dg == Unlin(m - 1, ro, so)
              x  == SubSeq(dg, 1, D)
              J  == SubSeq(dg, D + 1, D + ko)          \* kept indices then the free epsilon index
@@ -139,22 +139,22 @@ LeviCivita(A, idxs) ==
              Term(I) == Eps(I \o <<J[ko]>>) * A.val[Lin(x \o Full(I), sa) + 1]
              RECURSIVE SumSet(_)
              SumSet(S) == IF S = {} THEN 0 ELSE LET e == CHOOSE e \in S : TRUE IN Term(e) + SumSet(S \ {e})
-         IN SumSet(AllI)]]
+         IN SumSet(AllI)])]
 
 (* ---- squared Frobenius norm per pixel: a true scalar image ---- *)
 NormSq(A) ==
   LET D  == DimI(A)
       nc == NComp(A)
   IN [dims |-> A.dims, k |-> 0, p |-> 0,
-      val |-> [m \in 1..NPix(A) |-> SumSeq([c \in 1..nc |-> A.val[(m - 1) * nc + c] * A.val[(m - 1) * nc + c]])]]
+      val |-> Eager([m \in 1..NPix(A) |-> SumSeq([c \in 1..nc |-> A.val[(m - 1) * nc + c] * A.val[(m - 1) * nc + c]])])]
 
 (* ---- cyclic translation by t (per-axis offsets): (Shift(A,t))(x) = A(x - t) ---- *)
 Shift(A, t) ==
   LET D == DimI(A)
       r == Radix(A.dims, A.k)
       s == Strides(r)
-  IN [A EXCEPT !.val = [m \in 1..Len(A.val) |->
+  IN [A EXCEPT !.val = Eager([m \in 1..Len(A.val) |->
          LET dg == Unlin(m - 1, r, s)
              src == [j \in 1..(D + A.k) |-> IF j <= D THEN (dg[j] - t[j] + 8 * A.dims[j]) % A.dims[j] ELSE dg[j]]
-         IN A.val[Lin(src, s) + 1]]]
+         IN A.val[Lin(src, s) + 1]])]
 =============================================================================
